@@ -24,6 +24,9 @@ Lemma mapM_ext {A B} (f : A -> M B) (g : A -> B) (l : list A) :
   (forall a, f a = Val (g a)) -> mapM f l = Val (map g l).
 Proof. intros H. induction l as [|a l IH]; cbn [mapM map]; [reflexivity|]. rewrite H, IH. reflexivity. Qed.
 
+(* the result of a function that also returns generator / entropy state *)
+Definition mfst {A B} (m : M (A * B)) : M A := x <- m ;; Val (fst x).
+
 Create HintDb rfn.
 
 Ltac not_match c :=
